@@ -475,13 +475,18 @@ pub fn groups(prop: &str, tier: &str) -> Vec<Group> {
         "C01" => {
             let mut specs = regress_single();
             specs.extend(pair_family());
+            // one representative per automaton shape signature
             if q {
-                specs.extend(pair_enum(3, &a6, 97, 5, 60));
-                specs.extend(triple_enum(2, &a6, 11, 40));
+                specs.extend(selected("pair3_a12", 250));
+                specs.extend(selected("single4_a12", 100));
+                specs.extend(selected("triple2_a6", 50));
             } else {
-                specs.extend(pair_enum(3, &a12, 53, 7, 1600));
-                specs.extend(single_enum(4, &a12, 3, 400));
-                specs.extend(triple_enum(2, &a6, 3, 400));
+                specs.extend(selected("pair3_a12", usize::MAX));
+                specs.extend(selected("single4_a12", usize::MAX));
+                specs.extend(selected("single5_a6", usize::MAX));
+                specs.extend(selected("triple2_a6", usize::MAX));
+                specs.extend(pair_enum(3, &a12, 53, 7, 800));
+                specs.extend(triple_enum(2, &a6, 3, 300));
             }
             let mut p = plan("C01", Proj::Tokens, if q { 6 } else { 7 }, 0);
             p.extra_inputs = vec!["bbabx".into(), "cbaabx".into(), "abcabcabx".into(), "abcabcaab".into()];
@@ -499,7 +504,9 @@ pub fn groups(prop: &str, tier: &str) -> Vec<Group> {
         "C05" => {
             let mut p = plan("C05", Proj::Full, if q { 5 } else { 6 }, 2);
             p.alphabet = vec!['a', 'b', 'c'];
-            vec![Group { plan: p, specs: eoi_family() }]
+            let mut specs = eoi_family();
+            specs.extend(selected("eoi2_a6", if q { 60 } else { usize::MAX }));
+            vec![Group { plan: p, specs }]
         }
         "C06" => {
             let mk = |beta: &[char; 4], n: usize| Group {
@@ -532,6 +539,7 @@ pub fn groups(prop: &str, tier: &str) -> Vec<Group> {
             let mut specs = regress_single();
             specs.extend(pair_family());
             specs.extend(kinds_family(false));
+            specs.extend(selected("pair3_a12", if q { 60 } else { usize::MAX }));
             specs.push(Spec::single(vec![ret(Re::Any)], "any_only"));
             specs.push(Spec::single(vec![rule(Re::Any, Kind::Skip)], "any_only"));
             specs.push(Spec::single(vec![rule(plus(Re::Any), Kind::Act(D_CONTINUE))], "any_only"));
@@ -553,6 +561,7 @@ pub fn groups(prop: &str, tier: &str) -> Vec<Group> {
         "C14" => {
             let mut specs = regress_single();
             specs.extend(pair_family());
+            specs.extend(selected("pair3_a12", if q { 100 } else { usize::MAX }));
             let mut p = plan("C14", Proj::Ctors, if q { 5 } else { 6 }, 1);
             p.ctors = vec![CTOR_NEW_WITH_STATE, CTOR_FROM_ITER_WITH_STATE, CTOR_NEW, CTOR_FROM_ITER, CTOR_FROM_CHARS_ITER];
             let mut p2 = p.clone();
@@ -719,6 +728,23 @@ pub fn groups(prop: &str, tier: &str) -> Vec<Group> {
 }
 
 // ------------------------------------------------------------------ P-scale families (indexable)
+
+/// Representatives of a P family chosen by automaton shape signature (one definition per
+/// distinct signature, in enumeration order; computed by `pexp signatures <family>` and committed
+/// under `src/sel/`, so that generator and batch binaries agree).
+pub fn selected(family: &str, limit: usize) -> Vec<Spec> {
+    let txt = match family {
+        "pair3_a12" => include_str!("sel/pair3_a12.txt"),
+        "pair3_a6" => include_str!("sel/pair3_a6.txt"),
+        "single4_a12" => include_str!("sel/single4_a12.txt"),
+        "single5_a6" => include_str!("sel/single5_a6.txt"),
+        "triple2_a6" => include_str!("sel/triple2_a6.txt"),
+        "eoi2_a6" => include_str!("sel/eoi2_a6.txt"),
+        _ => panic!("no selection for {family}"),
+    };
+    let fam = p_family(family).unwrap();
+    txt.split_whitespace().filter_map(|i| i.parse::<usize>().ok()).filter(|i| *i < fam.len).take(limit).map(|i| (fam.get)(i)).collect()
+}
 
 pub struct PFamily {
     pub len: usize,
